@@ -18,6 +18,7 @@ func init() {
 }
 
 func runC09(c *Ctx) {
+	defer checkStoreKeyed(c, "C09.R7", storeRow{meth: "GetAccessTokenSession", table: "AccessTokens", op: "get", key: 2}, storeRow{meth: "GetRefreshTokenSession", table: "RefreshTokens", op: "get", key: 2})
 	defer checkIntrospectDispatch(c, "C09.R6")
 	defer checkConfigGetters(c, "C09.R5", "GetDisableRefreshTokenValidation", "GetScopeStrategy")
 	c09R1(c)
